@@ -155,6 +155,13 @@ pub static KNOBS: [AtomicUsize; 2] = [
     AtomicUsize::new(KNOB_DEFAULT),
 ];
 
+/// Off by default: see the `Drop` impl of `sync::RwLock`.
+pub static PAUSE_ON_LOCK_DROP: std::sync::atomic::AtomicBool = std::sync::atomic::AtomicBool::new(false);
+
+pub fn set_pause_on_lock_drop(on: bool) {
+    PAUSE_ON_LOCK_DROP.store(on, Ordering::SeqCst);
+}
+
 pub fn set_knob(which: usize, value: usize) {
     KNOBS[which].store(value, Ordering::SeqCst);
 }
@@ -238,19 +245,34 @@ pub mod sync {
 
     pub struct RwLock<T> {
         id: LazyId,
-        inner: parking_lot::RwLock<T>,
+        inner: ManuallyDrop<parking_lot::RwLock<T>>,
+    }
+
+    /// Teardown seam: the protected value is dropped first, then (only while
+    /// `set_pause_on_lock_drop(true)`) a pause point named after the value's type is reported, so
+    /// that a controller can run another thread between the drops of two fields of one struct.
+    impl<T> Drop for RwLock<T> {
+        fn drop(&mut self) {
+            // SAFETY: `inner` is dropped exactly once, here (`into_inner` forgets `self`).
+            unsafe { ManuallyDrop::drop(&mut self.inner) };
+            if super::PAUSE_ON_LOCK_DROP.load(std::sync::atomic::Ordering::Relaxed) {
+                super::pause(type_name::<T>());
+            }
+        }
     }
 
     impl<T> RwLock<T> {
         pub const fn new(value: T) -> Self {
             Self {
                 id: LazyId::new(),
-                inner: parking_lot::RwLock::new(value),
+                inner: ManuallyDrop::new(parking_lot::RwLock::new(value)),
             }
         }
 
         pub fn into_inner(self) -> T {
-            self.inner.into_inner()
+            let mut me = ManuallyDrop::new(self);
+            // SAFETY: `me` is never dropped, so `inner` is moved out exactly once.
+            unsafe { ManuallyDrop::take(&mut me.inner) }.into_inner()
         }
 
         #[inline]
